@@ -43,6 +43,22 @@ def seeded():
     return out
 
 
+def refactors():
+    """Behaviour-preserving changes from sub-agents: every check must stay quiet on them."""
+    out = []
+    d = os.path.join(VERIF, "refactors")
+    if not os.path.isdir(d):
+        return out
+    for name in sorted(os.listdir(d)):
+        meta = os.path.join(d, name, "meta.json")
+        patch = os.path.join(d, name, "patch.diff")
+        if os.path.exists(meta) and os.path.exists(patch):
+            m = json.load(open(meta))
+            out.append({"name": "refactors/" + name, "prop": m["property"], "patch": patch, "expect": "missed",
+                        "checks": m.get("sensitivity_checks") or [m["property"]]})
+    return out
+
+
 def make_scratch():
     tmp = tempfile.mkdtemp(prefix="verif-mut-")
     shutil.copytree(os.path.join(REPO, "fastavro"), os.path.join(tmp, "fastavro"),
@@ -115,7 +131,7 @@ def run_one(m, tier="quick", budget=None):
 
 def main(args):
     sel = [a for a in args if not a.startswith("-")]
-    ms = load_mutants() + seeded()
+    ms = load_mutants() + seeded() + refactors()
     if sel:
         ms = [m for m in ms if m["prop"] in sel or m["name"] in sel or any(m["name"].startswith(s) for s in sel)]
     missed = 0
